@@ -6,7 +6,8 @@ from vlib import *
 def judge_c05(case, g):
     if "panic" in g: return ("c05:panic", "harness-level panic: %s" % g["panic"])
     if "build_err" in g: return ("c05:build", "the spec's typed program is rejected by the crate: %s" % g["build_err"])
-    for tag in ("run", "run_ff"):
+    for tag in ("run", "run_ff", "run_view"):
+        if tag not in g: continue
         r = g[tag]
         exp = "ok" if case["ok"] else case["why"]
         if r["res"] != exp:
@@ -17,7 +18,7 @@ def judge_c05(case, g):
             if not r["out_ty_ok"] and r["io"][1] == 0 and case["ty"][-1][1] != ["1"]:
                 return ("c05:zero-width-target-unit", "%s: zero-width target %s but the output is %s of another type" % (tag, case["ty"][-1][1], r["out"]))
             if r["out"] != case["out"]:
-                fp = "c05:output-padding" if tag == "run_ff" and g["run"]["out"] == case["out"] else "c05:output"
+                fp = "c05:output-padding" if tag == "run_ff" and g["run"]["out"] == case["out"] else "c05:input-view" if tag == "run_view" and g["run"]["out"] == case["out"] else "c05:output"
                 return (fp, "%s: output %s, semantics %s" % (tag, r["out"], case["out"]))
             if not r["out_ty_ok"]:
                 # cause class: zero-width target type that is not the unit type
